@@ -77,7 +77,12 @@ static void monitor(struct vm_dev* d, int call)
         case VC_STOP:
             if (!d->started) { snprintf(cl, sizeof cl, "%s:stop-without-start", P()); vs_fail(cl, "%s%d.stop without a preceding successful start", dn, d->idx); }
             break;
-        case VC_GET_FRAME: case VC_APPEND:
+        case VC_GET_FRAME:
+            // another thread may legitimately stop the camera between the HAL's state check and the driver call
+            // (that is how a pending frame call is unblocked), so at thread level this is an event, not a violation
+            if (!d->started && !VM.strict_sequential) { vs_event(44); break; }
+            // fallthrough
+        case VC_APPEND:
             if (!d->started) { snprintf(cl, sizeof cl, "%s:data-call-outside-run:%s", P(), vmock_call_name(call)); vs_fail(cl, "%s%d.%s outside start..stop", dn, d->idx, vmock_call_name(call)); }
             break;
         case VC_CLOSE:
